@@ -25,6 +25,30 @@ CHECKS["C07"] = dict(
    design="DESIGN.md 4 C07",
    note="Trusted: Coq kernel + vm_compute; leaf values abstracted to tokens compared by value; pickle round-trip as the queue; the Python harness and its encoding of trees.",
    technique="Coq proof over hand-written Gallina model + lockstep correspondence (vm_compute) + direct oracle")
+CHECKS["C02"] = dict(
+   text="Executable Gallina model of the sequential semantics of torchdata.nodes (NodeModel.v: reset/next/get_state of IterableWrapper, SamplerWrapper, Mapper, Batcher, "
+        "Unbatcher, Filter, Prefetcher/ParallelMapper by their sequential specification, Loader/LoaderIterator with its look-ahead cache and flag machine) with "
+        "machine-checked theorems stated in Properties_C02.v (see that file for exactly what is proved; resume exactness for every pipeline of the syntax and every k is the target). "
+        "Tied to the code on every run by lockstep correspondence: random well-typed pipelines and checkpoint/resume chains, every item, StopIteration and state dict compared "
+        "with the model evaluated in Coq; direct oracle: resumed stream == uninterrupted remainder, following epochs included.",
+   design="DESIGN.md 4 C02",
+   note="Trusted: Coq kernel + vm_compute; concurrent operators enter this model through their sequential specification (C06/C04 concurrent model covers the threads); harness user code; "
+        "MultiNodeWeightedSampler is covered by C14's model, PinMemory is not exercised (no accelerator).",
+   technique="Coq proof over hand-written Gallina model + lockstep correspondence (vm_compute) + direct oracle")
+CHECKS["C04"] = dict(
+   text="Same Gallina node model; theorems in Properties_C04.v relate running a node (reset, next until StopIteration, any number of epochs) to the list-function reference "
+        "semantics sem (map f, chunking with drop_last, concat, filter, identity). Correspondence: three epochs of random pipelines compared with the model and with an independent "
+        "Python list reference; concurrency runs (thread and process workers, in_order true/false, max_concurrent, prebatch, randomised per-item delays) checked against the list reference.",
+   design="DESIGN.md 4 C04",
+   note="Trusted: Coq kernel + vm_compute; interleavings of the real threads are sampled by delay jitter in this check (the interleaving-level model and scheduler are part of the C06/C12 machinery); harness user code.",
+   technique="Coq proof over hand-written Gallina model + lockstep correspondence (vm_compute) + direct oracle")
+CHECKS["C13"] = dict(
+   text="Loader front-end (flag machine _it/_iter_for_state_dict/_next_iter_state_dict, LoaderIterator look-ahead) inside the Gallina node model; theorems in Properties_C13.v. "
+        "Correspondence: random API call sequences over {iter, next, exhaust, state_dict, load_state_dict(any earlier state)} compared op by op with the model and with a "
+        "list-based reference (epochs as lists, cursor, pending state), including epoch-dependent samplers.",
+   design="DESIGN.md 4 C13",
+   note="Trusted: Coq kernel + vm_compute; the list-based reference is the verifier's reading of the documented behaviour; known finding D15 (idle-epoch epoch counter) is matched specifically.",
+   technique="Coq proof over hand-written Gallina model + lockstep correspondence (vm_compute) + list-reference oracle")
 props = [json.loads(l) for l in open(os.path.join(V, "properties.jsonl"))]
 checks, na = [], []
 for p in props:
